@@ -1687,7 +1687,11 @@ class Container:
         new_volume = self.volume + Unit.convert(solvent, f"{required_umoles} umol", config.volume_storage_unit)
 
         if round(new_volume, config.internal_precision) > self.max_volume:
-            raise ValueError("Dilute solution will not fit in container.")
+            # A dilution that fills the vessel exactly comes out over its capacity by what the stored amounts hide,
+            # times the dilution factor: within what the concentration is known to, the vessel is filled, not refused.
+            if new_volume - self.max_volume > self._concentration_allowance(solute, denominator) * new_volume:
+                raise ValueError("Dilute solution will not fit in container.")
+            required_umoles *= (self.max_volume - self.volume) / (new_volume - self.volume)
 
         if name:
             # Note: this copies the container twice
